@@ -17,8 +17,11 @@ P = {
          "order of activations, match/threshold type (scalar or per-channel), mode, epsilon, veto pattern, any number "
          "of categories.  Tie: every real step_fit step of all 8 elementary classes + FusionART is replayed through "
          "the Lean search on the exact doubles (order keys) incl. thresholds seen by the reset function; end-to-end "
-         "histories over Q for Fuzzy/ART1/ART2-A.",
-         "Outside the theorem: whether T and M are the right numbers (C03); float rounding inside kernels.",
+         "histories over Q for Fuzzy/ART1/ART2-A and on IEEE doubles for HypersphereART; the match-tracking tables of "
+         "BaseART/BayesianART/Dual/Topo/CVIART, the operator per mode and the orientation of the binary test are "
+         "regenerated from the source by the translator on every run and proved equal to the model's (8 obligations).",
+         "Outside the theorem: whether T and M are the right numbers (C03); float rounding inside kernels; activations are "
+         "assumed never to be -inf (np.nanargmax then returns a NaN slot and the real loop spins: finding F15, fixed).",
          "Lean proof by induction over the search loop + trace-driven correspondence"),
  "C02": ("Every category = the module's learning rule folded over exactly the samples labelled with it (any kernel, "
          "mode, veto); Fuzzy fast learning = meet of members = smallest enclosing box; weights antitone; enclosed "
@@ -74,8 +77,9 @@ P = {
          "Lean proof + relational oracle + correspondence"),
  "C09": ("MapInv (one entry per A category, total, zip(labels_a, targets) consistent) after any history, all modes; "
          "entries never overwritten; map_a2b(labels_a) = targets; predictions = map[predict_a] ∈ targets.  Oracle on "
-         "SimpleARTMAP/ARTMAP with all elementary classes + Dual/Fusion as A-side, contradictory labels, epochs; tie: "
-         "Lean SimpleARTMAP histories over Q.",
+         "SimpleARTMAP/ARTMAP with all elementary classes + Dual/Fusion as A-side, contradictory labels, negative class "
+         "labels, re-fits, epochs; tie: Lean SimpleARTMAP histories over Q; match_reset_func is regenerated from the source by "
+         "the translator on every run and proved to be the negation of the model's veto.",
          "ARTMAP regression returns sklearn-free B-side centres: checked by the oracle only.",
          "Lean proof (invariant via winner-not-vetoed + frame) + correspondence"),
  "C12": ("DeepInv for supervised and unsupervised hierarchies of any depth after any valid history: columns are layer "
@@ -132,11 +136,33 @@ P = {
          "Lean proof + bitwise correspondence"),
 }
 
-PENDING = {
- "C10": "slice under construction (Fusion model + proofs); not yet claimed",
- "C11": "slice under construction (Fusion skip-channel model + proofs); not yet claimed",
- "C16": "slice under construction (FALCON model + proofs); not yet claimed",
-}
+P.update({
+ "C10": ("FusionART as a kernel built from channel kernels: activation = left-to-right gamma-weighted sum, match = all channels, "
+         "tracking per channel, update/new weight channel-wise (slices by data widths for samples, by weight lengths for "
+         "weights), every channel's weights = its module's rule folded over its slices of the category's members, module "
+         "lists are projections with equal counts, W = concatenation, one channel with gamma 1 = bare module, adjacent channel "
+         "swap leaves labels unchanged — any number of channels, widths, weight lengths, streams, modes, reset functions.  Tie: "
+         "exact end-to-end histories (Fuzzy/ART1/ART2-A channels); oracle on all 8 channel classes.",
+         "Float rounding of the weighted sum is not modelled (near-ties within 1e-9 are skipped and counted); BayesianART's "
+         "inverted channel test is covered by the oracle only.",
+         "Lean proof (fusion kernel + member-fold projection) + correspondence"),
+ "C11": ("Skipped channels add a constant to every activation, adding a constant preserves np.argmax, hence prediction with a "
+         "skip set depends on the supplied slices only and is the arg-max of the remaining channels; negative indices "
+         "normalised; regression returns the target channels' centres; join/split and prepare/restore round trips.  Tie: exact "
+         "rational replays; oracle over all skip/target subsets, positive and negative indices, several fillers.",
+         "Centres of non-Fuzzy target modules and de-normalisation are the modules' own (C03/C18).",
+         "Lean proof + correspondence"),
+ "C16": ("FALCON/TD-FALCON training = FusionART training on joined rows (definitional), get_rewards = reward-channel centre of "
+         "the category chosen with the reward channel withheld, get_action = first arg-max/arg-min over the action space, SARSA "
+         "targets = complement code of clip(Q + alpha(r + lambda Q' - Q), 0, 1) for every transition but the last, valid reward "
+         "inputs; single-transition and untrained cases.  Tie: exact replays of sarsa/act/rew ops; oracle vs a FusionART trained "
+         "directly on the joined rows.",
+         "Reward channel = one complement-coded scalar; get_probabilistic_action (random) not covered; 'r alone before any "
+         "training' read as Q ≡ 0 (target clip(alpha·r)).",
+         "Lean proof + correspondence"),
+})
+
+PENDING = {}
 
 
 def main():
